@@ -124,7 +124,7 @@ Lemma step_keeps_shape cls w o :
   def_shape (w_def w) = true -> def_shape (w_def (fst (step cls w o))) = true.
 Proof.
   intros Hs. destruct dschema_form as [cn [a [b [ct [sp [Hd Hna]]]]]].
-  destruct o as [[|] sub arg|[|] p v|arg| |kw]; unfold step.
+  destruct o as [[|] sub arg|[|] p v|arg|arg| | |kw]; unfold step.
   - pose proof (update_at_shape sp Hna cn a b ct sub (w_def w) arg Hs) as H. rewrite <- Hd in H.
     destruct (update_at defaults_schema (w_def w) sub arg) as [t e]. simpl in *. exact H.
   - destruct (update_at (class_schema cls) (w_obj w) sub arg) as [t e]. simpl. exact Hs.
@@ -132,7 +132,14 @@ Proof.
     + rewrite Hd in E. exact (assign_shape sp Hna cn a b ct p (w_def w) v t Hs E).
     + exact Hs.
   - destruct (lift_res (w_obj w) (assign colors (class_schema cls) (w_obj w) p v)) as [t e]. simpl. exact Hs.
-  - destruct (update colors (class_schema cls) (w_obj w) arg true false) as [t e]. simpl. exact Hs.
+  - destruct (set_style colors style_setter_takes_instance (class_schema cls) (w_obj w) (SDict arg)) as [t e].
+    simpl. exact Hs.
+  - match goal with |- context [update ?a ?b ?c ?d ?e ?f] => destruct (update a b c d e f) as [inst [e0|]] end.
+    + simpl. exact Hs.
+    + destruct (set_style colors style_setter_takes_instance (class_schema cls) (w_obj w) (SInst inst)) as [t e].
+      simpl. exact Hs.
+  - destruct (set_style colors style_setter_takes_instance (class_schema cls) (w_obj w) SWrong) as [t e].
+    simpl. exact Hs.
   - destruct (def_shape_inv _ Hs) as [t0 Ht]. rewrite Ht. rewrite reset_any_state.
     cbn [fst snd w_def]. exact pristine_shape.
   - destruct (get_style colors (class_schema cls) (class_families cls) dstyle_schema
